@@ -122,6 +122,39 @@ macro_rules! declare_storage_n {
                     self.destroyed.clear();
                 }
 
+                /// Verification hook: read-only copy of the internal representation.
+                #[cfg(gecs_verif)]
+                pub fn verif_dump(&self) -> $crate::archetype::storage::VerifDump {
+                    unsafe {
+                        let slots = self.slots.slice(self.capacity);
+                        let entities = self.entities.slice(self.len);
+                        $crate::archetype::storage::VerifDump {
+                            version: self.version.get().get(),
+                            len: self.len,
+                            capacity: self.capacity,
+                            free_head: self.free_head.verif_raw(),
+                            slots: slots
+                                .iter()
+                                .map(|s| (s.index().verif_raw(), s.version().get().get()))
+                                .collect(),
+                            entities: entities.iter().map(|e| e.into_any().raw()).collect(),
+                        }
+                    }
+                }
+
+                /// Verification hook: preset all generations of an EMPTY storage.
+                #[cfg(gecs_verif)]
+                pub fn verif_preset_versions(&mut self, slot_gen: u32, archetype_gen: u32) {
+                    assert!(self.len == 0, "verif_preset_versions requires an empty storage");
+                    unsafe {
+                        let capacity = self.capacity;
+                        for slot in self.slots.slice_mut(capacity).iter_mut() {
+                            slot.verif_set_version(slot_gen);
+                        }
+                    }
+                    self.version = ArchetypeVersion::verif_new(archetype_gen);
+                }
+
                 /// Adds a new entity with the given components to this storage.
                 /// Returns a typed entity handle pointing to the added element.
                 ///
@@ -849,6 +882,18 @@ seq!(N in 17..=32 {
         N
     );
 });
+
+/// Verification hook: plain-data copy of a storage's internal representation.
+#[cfg(gecs_verif)]
+#[derive(Clone, Debug, PartialEq, Eq, Hash)]
+pub struct VerifDump {
+    pub version: u32,
+    pub len: usize,
+    pub capacity: usize,
+    pub free_head: u32,
+    pub slots: Vec<(u32, u32)>,
+    pub entities: Vec<(u32, u32)>,
+}
 
 pub struct DataPtr<T>(NonNull<MaybeUninit<T>>);
 
